@@ -345,6 +345,28 @@ def judge_laws(case: dict[str, Any]) -> tuple[list[tuple[str, str]], list[str]]:
     big = max([abs(x) for a, b, c, k, l in mvals for x in (*a, *b, *c, k, l)] + [Fraction(0)])
     scale = _mp((1 + big)**4) if w.has_float else r3.mpf(1)
     symbolic = bool(A.components or B.components or C.components) and not w.has_float
+    # generic symbols carry no assumption, so the identities are claimed for complex values too: one Gaussian-rational
+    # assignment for the law clauses (library result against library result; the Fraction model stays real)
+    cenv: dict[Any, Any] | None = None
+    if symbolic and case.get("symkind", "plain") == "plain" and envs:
+        real0 = envs[0][1]
+        vals0 = [real0[s] for s in w.syms]
+        cenv = dict(real0)
+        for i, s in enumerate(w.syms):
+            cenv[s] = vals0[i] + w.sympy.I * (vals0[(i + 1) % len(vals0)] / 2 + w.sympy.Rational(1 + i % 3, 3))
+        labels.append("complex_assignment")
+
+    def cvalue(e: Any) -> Any:
+        """Complex value at the Gaussian-rational assignment, or None when undefined there (isotropic vectors)."""
+        assert cenv is not None
+        e = w.sympy.sympify(e)
+        r = e.xreplace(cenv) if e.free_symbols else e
+        if r.has(w.sympy.nan, w.sympy.zoo, w.sympy.oo, -w.sympy.oo):
+            return None
+        v = w.sympy.N(r, 50)
+        if not v.is_number or v.has(w.sympy.nan, w.sympy.zoo, w.sympy.oo) or v.free_symbols:
+            return None
+        return v
 
     def comps(v: Any) -> list[Any]:
         cs = list(v.components)
@@ -417,6 +439,18 @@ def judge_laws(case: dict[str, Any]) -> tuple[list[tuple[str, str]], list[str]]:
                     return
                 if not values_close(xv, yv, tol, scale):
                     fail(key, f"{name}[{i}] lhs={x} -> {xv} rhs={y} -> {yv} at s={[str(v) for v in menv['s']]}")
+                    return
+        if cenv is not None:
+            for i, (x, y) in enumerate(zip(ls, rs)):
+                try:
+                    xc, yc = cvalue(x), cvalue(y)
+                except Exception:  # pylint: disable=broad-except
+                    xc = yc = None
+                if xc is None or yc is None:
+                    continue
+                if abs(xc - yc) > w.sympy.Float("1e-30") * (1 + abs(xc) + abs(yc)):
+                    fail(key, f"{name}[{i}] lhs={x} -> {w.sympy.N(xc, 12)} rhs={y} -> {w.sympy.N(yc, 12)} at the complex "
+                        f"assignment { {str(k): str(v) for k, v in cenv.items() if (x - y).has(k)} } (generic symbols carry no assumption)")
                     return
         if symbolic and judged_any:
             for i, (x, y) in enumerate(zip(ls, rs)):
